@@ -38,7 +38,10 @@ Record opts := Opts {
 
 (** Callsite metadata as the formatters read it. [e_line] is the decimal text of the line number. *)
 Record emeta := EMeta {
-  e_level : N; e_target : bytes; e_name : bytes; e_file : option bytes; e_line : option bytes; e_span : bool
+  e_level : N; e_target : bytes; e_name : bytes; e_file : option bytes; e_line : option bytes; e_span : bool;
+  e_time : option bytes
+  (* what the configured timer did when THIS emission was formatted: [None] it wrote the timestamp (the harness's: "TIME");
+     [Some pre] it wrote [pre] and returned [Err] (a clock that cannot be read) *)
 }.
 Definition meta_of (m : emeta) : meta := Meta (e_level m) (e_target m) (e_name m) (e_span m).
 
@@ -114,8 +117,13 @@ Definition level_str (f : fmt) (l : N) : bytes :=
   end.
 
 (* format_timestamp, format_level, thread name, thread id — common to both formats *)
+(* format_timestamp: "If getting the timestamp failed, don't bail --- only bail on formatting errors":
+   if self.timer.format_time(writer).is_err() { writer.write_str("<unknown time>")?; }  writer.write_char(' ') *)
+Definition time_text (m : emeta) : bytes :=
+  match e_time m with None => str "TIME" | Some pre => pre ++ str "<unknown time>" end.
+
 Definition head (f : fmt) (o : opts) (m : emeta) (th : thr) : bytes :=
-  (if o_timer o then str "TIME " else []) ++
+  (if o_timer o then time_text m ++ [32] else []) ++
   (if o_level o then level_str f (e_level m) ++ [32] else []) ++
   (if o_tname o then th_name th ++ [32] else []) ++
   (if o_tid o then th_id th ++ [32] else []).
@@ -283,7 +291,7 @@ Definition sink_log_f {M} (both : bool) (c : cfg) (pm : M -> meta) (w : wexp) (p
 (** ** Token view of a record (specification side of C13_content) *)
 
 Inductive tok :=
-| TTimer
+| TTimer (t : bytes)                    (* the timestamp, or what the failing timer wrote ++ "<unknown time>" *)
 | TLevel (l : N)
 | TThreadName (b : bytes)
 | TThreadId (b : bytes)
@@ -298,7 +306,7 @@ Inductive tok :=
 
 Definition render_tok (f : fmt) (t : tok) : bytes :=
   match t with
-  | TTimer => str "TIME "
+  | TTimer t => t ++ [32]
   | TLevel l => level_str f l ++ [32]
   | TThreadName b => b ++ [32]
   | TThreadId b => b ++ [32]
@@ -315,7 +323,7 @@ Definition render_tok (f : fmt) (t : tok) : bytes :=
 Definition opt_tok (b : bool) (t : tok) : list tok := if b then [t] else [].
 
 Definition head_toks (o : opts) (m : emeta) (th : thr) : list tok :=
-  opt_tok (o_timer o) TTimer ++ opt_tok (o_level o) (TLevel (e_level m)) ++
+  opt_tok (o_timer o) (TTimer (time_text m)) ++ opt_tok (o_level o) (TLevel (e_level m)) ++
   opt_tok (o_tname o) (TThreadName (th_name th)) ++ opt_tok (o_tid o) (TThreadId (th_id th)).
 
 Definition loc_toks (o : opts) (m : emeta) : list tok :=
@@ -362,7 +370,7 @@ Definition clean_o (b : option bytes) : bool := match b with Some x => clean_b x
 Definition clean_fields (fs : list (bytes * bytes)) : bool := forallb (fun p => clean_b (fst p) && clean_b (snd p)) fs.
 Definition clean_span (s : span) : bool := clean_b (s_name s) && forallb clean_fields (s_groups s).
 Definition inputs_nl_free (th : thr) (m : emeta) (sc : list span) (fs : list (bytes * bytes)) : bool :=
-  clean_b (th_name th) && clean_b (th_id th) && clean_b (e_target m) && clean_o (e_file m) && clean_o (e_line m)
+  clean_b (th_name th) && clean_b (th_id th) && clean_b (e_target m) && clean_o (e_file m) && clean_o (e_line m) && clean_o (e_time m)
   && forallb clean_span sc && clean_fields fs.
 
 (** ** Span fields, field by field (specification side)
@@ -425,7 +433,7 @@ Definition p_span_fields (s : span) : bytes := fold_left p_add_group (s_groups s
 
 Definition p_before (o : opts) (m : emeta) : bytes :=
   str "  " ++
-  (if o_timer o then str "TIME " else []) ++
+  (if o_timer o then time_text m ++ [32] else []) ++
   (if o_level o then level_str Full (e_level m) ++ [32] else []) ++
   (if o_target o then e_target m ++ [58] else []) ++
   (match shown_line o m with Some l => if o_file o then [] else l ++ [58] | None => [] end) ++ [32].
@@ -488,7 +496,7 @@ Definition thread_events_pretty (o : opts) (sc : spancfg) (th : thr) (ops : list
 
 (** Token view of a Pretty record. *)
 Inductive ptok :=
-| PStart | PTimer | PLevel (l : N) | PTarget (t : bytes) | PLineInline (l : bytes) | PGap
+| PStart | PTimer (t : bytes) | PLevel (l : N) | PTarget (t : bytes) | PLineInline (l : bytes) | PGap
 | PField (first : bool) (n v : bytes)
 | PEol
 | PAt (file : bytes) (line : option bytes) (thread_follows : bool)
@@ -500,7 +508,7 @@ Inductive ptok :=
 Definition render_ptok (t : ptok) : bytes :=
   match t with
   | PStart => str "  "
-  | PTimer => str "TIME "
+  | PTimer t => t ++ [32]
   | PLevel l => level_str Full l ++ [32]
   | PTarget t => t ++ [58]
   | PLineInline l => l ++ [58]
@@ -525,7 +533,7 @@ Definition pspan_tok (o : opts) (s : span) : ptok :=
   PSpan (if o_target o then Some (s_target s) else None) (s_name s) (p_span_fields s).
 
 Definition ptokens_spec (o : opts) (th : thr) (m : emeta) (sc : list span) (fs : list (bytes * bytes)) : list ptok :=
-  [PStart] ++ popt (o_timer o) PTimer ++ popt (o_level o) (PLevel (e_level m)) ++ popt (o_target o) (PTarget (e_target m)) ++
+  [PStart] ++ popt (o_timer o) (PTimer (time_text m)) ++ popt (o_level o) (PLevel (e_level m)) ++ popt (o_target o) (PTarget (e_target m)) ++
   (match shown_line o m with Some l => if o_file o then [] else [PLineInline l] | None => [] end) ++ [PGap] ++
   pfield_toks true fs ++ [PEol] ++
   (match p_shown_file o m with
@@ -595,3 +603,19 @@ Definition guarded (poisons : bool) (fe : emission -> outcome N) (em : emission)
 
 Definition thread_events_g (fe : emission -> outcome N) (sc : spancfg) (timing : bool) (ops : list op) : list (event N emeta) :=
   map (gev_of fe) (flat_map (expand sc timing) ops).
+
+(** ** A timer that fails
+
+    [format_timestamp] (Full, Compact, Pretty, hence the lifecycle records too) does not bail when the configured
+    [FormatTime] returns [Err]: it prints "<unknown time>" where the timestamp would be and the REST OF THE RECORD IS
+    INTACT ([time_text]; [fallback = true]).  [fallback = false] is [self.timer.format_time(writer)?]: [format_event]
+    fails as a whole and the event produces no record (with [log_internal_errors] the "Unable to format" line).  Which
+    one the tree has is read from format/mod.rs on every run (TVGen.Gen_fmtbuf.timer_fallback). *)
+Definition time_guard (fallback timer_on : bool) (fe : emission -> outcome N) (em : emission) : outcome N :=
+  match em with
+  | Em m _ _ =>
+      match e_time m with
+      | Some pre => if timer_on && negb fallback then OErr pre (errline m) else fe em
+      | None => fe em
+      end
+  end.
